@@ -16,9 +16,16 @@ package packagedeploy
 //@   loop 1 invariant forall i int :: { out[i] } 0 <= i && i < idx ==> len(out[i]) == 1 && fresh(sarr(out[i])) && allocated(sarr(out[i])) && out[i][0] == old(phase.Objects[i])
 
 //@ func package-operator.run/internal/packages/internal/packagedeploy.(*DeploymentReconciler).reconcileSliceWithCollisionCount
+//@   ghost lastSliceOK() := if result == nil then objid(clientObj(slice)) else old(lastSliceOK())
+//@   ensures [C14] result == nil ==> lastSliceOK() == objid(clientObj(slice))
 //@   sink Client.Create#1 requires [C14] isCtrl(arg1, oid(clientObj(deploy)))
 //@   at return#5 assert [C14] isController && isEqual
 //@   ensures [C14] result == nil ==> lastCreateOK() || (lastGet() == 2 && lastGetCtrl()[oid(clientObj(deploy))] && lastDeepEq())
+
+// the slice object handed in by the caller is the one that was created or accepted: the caller records its name in the
+// deployment's template afterwards
+//@ func package-operator.run/internal/packages/internal/packagedeploy.(*DeploymentReconciler).reconcileSlice
+//@   ensures [C14] result == nil ==> lastSliceOK() == objid(clientObj(slice))
 
 //@ func package-operator.run/internal/packages/internal/packagedeploy.(*DeploymentReconciler).sliceGarbageCollection
 //@   sink Client.Delete#1 requires [C14] !(name(arg1) in referencedSlices)
